@@ -881,17 +881,22 @@ class Shuffle(Op):
         if not cands:
             return None
         s = st()
-        return {"on": draw(s.sampled_from(cands)), "npartitions": draw(s.sampled_from([None, 1, 2, 3]))}
+        out = {"on": draw(s.sampled_from(cands)), "npartitions": draw(s.sampled_from([None, 1, 2, 3, 4]))}
+        if draw(s.integers(0, 2)) == 0:
+            # the staged task shuffle (more partitions than max_branch on both sides)
+            out.update(shuffle_method="tasks", max_branch=2, ignore_index=draw(s.booleans()))
+        return out
 
     @staticmethod
     def apply(side, objs, args):
         if side == "pandas":
-            return objs[0]
-        return objs[0].shuffle(on=args["on"], npartitions=args["npartitions"])
+            return objs[0].reset_index(drop=True) if args.get("ignore_index") else objs[0]
+        kw = {k: args[k] for k in ("shuffle_method", "max_branch", "ignore_index") if args.get(k) is not None}
+        return objs[0].shuffle(on=args["on"], npartitions=args["npartitions"], **kw)
 
     @staticmethod
     def flags(ins, args, out):
-        return replace(ins[0][1], rowset="", ordered=False, layout=False)
+        return replace(ins[0][1], rowset="", ordered=False, layout=False, indexed=ins[0][1].indexed and not args.get("ignore_index"))
 
 
 @register("repartition", kinds=("frame", "series"), weight=0.6, tags={"repartition"})
